@@ -216,6 +216,10 @@ impl Prop for C18 {
             }
             es(store.flush())?;
             let before = store_dump(&mut store, &docs)?;
+            // the heads as reported, with the key each one names: which of several entries at the head timestamp is named is
+            // the store's choice, but an open that has nothing to rebuild must not change it
+            let head_keys = |store: &mut Store| -> R<Vec<std::collections::BTreeMap<[u8; 32], (u64, Vec<u8>)>>> { docs.iter().map(|ns| heads(store, *ns)).collect() };
+            let heads_before = head_keys(&mut store)?;
             drop(store);
 
             let deleted = delete_tables(&path, c.delete)?;
@@ -247,6 +251,13 @@ impl Prop for C18 {
                 }
             };
             let mut prev = store_dump(&mut store, &docs)?;
+            let mut prev_heads = head_keys(&mut store)?;
+            if c.delete & 1 == 0 && prev_heads != heads_before {
+                o.fail(
+                    "C18/reopen-not-a-noop",
+                    format!("the head table was up to date (deleted {:?}), yet the reported heads changed over a reopen: {:?} became {:?}", deleted, brief_head_keys(&heads_before), brief_head_keys(&prev_heads)),
+                );
+            }
             // heads vs. the records (model), not vs. the old head table
             for ns in &docs {
                 let d = dump(&mut store, *ns)?;
@@ -284,6 +295,11 @@ impl Prop for C18 {
                 if now != prev {
                     o.fail("C18/reopen-not-a-noop", format!("reopen #{}: {} became {}", k + 1, describe_store(&prev), describe_store(&now)));
                 }
+                let now_heads = head_keys(&mut store)?;
+                if now_heads != prev_heads && !o.failed() {
+                    o.fail("C18/reopen-not-a-noop", format!("reopen #{}: the reported heads {:?} became {:?}", k + 1, brief_head_keys(&prev_heads), brief_head_keys(&now_heads)));
+                }
+                prev_heads = now_heads;
                 prev = now;
                 o.class("reopen-cycles");
             }
@@ -301,4 +317,8 @@ impl Prop for C18 {
     fn assumptions() -> Vec<String> {
         vec!["an 'older database' is emulated by deleting the derived tables with plain redb 4.1; the redb 2.x tuple migration is covered by the repository's own tests only".into()]
     }
+}
+
+fn brief_head_keys(h: &[std::collections::BTreeMap<[u8; 32], (u64, Vec<u8>)>]) -> Vec<Vec<(String, u64, String)>> {
+    h.iter().map(|m| m.iter().map(|(a, (t, k))| (hex::encode(&a[..2]), *t, hex::encode(k))).collect()).collect()
 }
